@@ -276,15 +276,19 @@ func gen(t *rapid.T) Case {
 		for _, k := range userKeys {
 			isUserKey = isUserKey || c.Dir["alice.pub"] == k
 		}
-		if !isUserKey {
+		if rapid.IntRange(0, 5).Draw(t, "straightSK") == 1 {
+			c.Dir["alice.pub"] = "sk-ed25519" // a registered security key, for which the honest agent answers as a token would
+		} else if !isUserKey {
 			c.Dir["alice.pub"] = "p256b"
 		}
-		has := false
-		for _, h := range c.Held {
-			has = has || h == c.Dir["alice.pub"]
-		}
-		if !has {
-			c.Held = append(c.Held, c.Dir["alice.pub"])
+		if c.Dir["alice.pub"] != "sk-ed25519" {
+			has := false
+			for _, h := range c.Held {
+				has = has || h == c.Dir["alice.pub"]
+			}
+			if !has {
+				c.Held = append(c.Held, c.Dir["alice.pub"])
+			}
 		}
 		for i := range c.Runs {
 			c.Runs[i].LogName, c.Runs[i].Policy, c.Runs[i].Agent, c.Runs[i].Handlers, c.Runs[i].NilAttrs = "alice", "NONS", "honest", []string{"real"}, false
